@@ -66,6 +66,68 @@ theorem continueHandshake_main (n : Node) (via : UNode) (idx : Nat) (res : S2Res
           · refine ⟨rfl, .added (initiatorHostInfo hh via c) c rfl rfl ?_ rfl⟩
             simpa using hself
 
+/-- GetOrHandshake never touches the configuration or the main hostmap -/
+theorem getOrHandshake_main (n : Node) (a : Addr) (cb : Pending → Pending) :
+    (n.getOrHandshake a cb).1.cfg = n.cfg ∧ (n.getOrHandshake a cb).1.main = n.main := by
+  unfold Node.getOrHandshake; split <;> exact ⟨rfl, rfl⟩
+
+theorem firstReady_main (gs : List Addr) (n : Node) :
+    (n.firstReady gs).1.cfg = n.cfg ∧ (n.firstReady gs).1.main = n.main := by
+  induction gs generalizing n with
+  | nil => exact ⟨rfl, rfl⟩
+  | cons g gs ih =>
+    simp only [Node.firstReady]
+    have h1 := getOrHandshake_main n g id
+    generalize n.getOrHandshake g id = r at h1 ⊢
+    obtain ⟨n', o⟩ := r
+    cases o with
+    | some h => exact h1
+    | none => have := ih n'; exact ⟨this.1.trans h1.1, this.2.trans h1.2⟩
+
+theorem sendRouted_main (n : Node) (q : Cached) :
+    (n.sendRouted q).1.cfg = n.cfg ∧ (n.sendRouted q).1.main = n.main := by
+  unfold Node.sendRouted
+  split
+  next => exact ⟨rfl, rfl⟩
+  next g _ =>
+    have h1 := getOrHandshake_main n g.1 (fun hh => hh.cache q)
+    generalize n.getOrHandshake g.1 (fun hh => hh.cache q) = r at h1 ⊢
+    obtain ⟨n', o⟩ := r
+    cases o <;> exact h1
+  next =>
+    split
+    next => exact ⟨rfl, rfl⟩
+    next chosen _ =>
+      have h1 := getOrHandshake_main n chosen id
+      generalize n.getOrHandshake chosen id = r at h1 ⊢
+      obtain ⟨n1, o⟩ := r
+      cases o with
+      | some h => exact h1
+      | none =>
+        dsimp only
+        have h2 := firstReady_main ((n.cfg.routes.map (·.1)).filter (· != chosen)) n1
+        generalize n1.firstReady ((n.cfg.routes.map (·.1)).filter (· != chosen)) = r2 at h2 ⊢
+        obtain ⟨n2, o2⟩ := r2
+        cases o2 with
+        | some h => exact ⟨h2.1.trans h1.1, h2.2.trans h1.2⟩
+        | none =>
+          dsimp only
+          split <;> exact ⟨h2.1.trans h1.1, h2.2.trans h1.2⟩
+
+theorem sendInside_main (n : Node) (a : Addr) (q : Cached) :
+    (n.sendInside a q).1.cfg = n.cfg ∧ (n.sendInside a q).1.main = n.main := by
+  unfold Node.sendInside
+  split
+  · exact ⟨rfl, rfl⟩
+  · split
+    · exact sendRouted_main n q
+    · split
+      · exact ⟨rfl, rfl⟩
+      · have h1 := getOrHandshake_main n a (fun hh => hh.cache q)
+        generalize n.getOrHandshake a (fun hh => hh.cache q) = r at h1 ⊢
+        obtain ⟨n', o⟩ := r
+        cases o <;> exact h1
+
 theorem step_main (n : Node) (e : Ev) :
     (n.step e).1.cfg = n.cfg ∧ MainChange n.cfg n.main (n.step e).1.main e := by
   cases e with
@@ -79,25 +141,8 @@ theorem step_main (n : Node) (e : Ev) :
   | stage1 via pkt res rv now => exact beginHandshake_main n via pkt res rv now
   | stage2 via idx res => exact continueHandshake_main n via idx res
   | send a q =>
-    simp only [Node.step, Node.sendInside, Node.getOrHandshake]
-    split
-    · exact ⟨rfl, .same rfl⟩
-    · split
-      · exact ⟨rfl, .same rfl⟩
-      · split
-        · rename_i n' h heq
-          have : n' = n := by
-            split at heq
-            · simp at heq; exact heq.1.symm
-            · simp at heq
-          subst this
-          split
-          · split <;> exact ⟨rfl, .same rfl⟩
-          · exact ⟨rfl, .same rfl⟩
-        · rename_i n' heq
-          split at heq
-          · simp at heq
-          · simp at heq; subst heq; exact ⟨rfl, .same rfl⟩
+    have := sendInside_main n a q
+    exact ⟨this.1, .same this.2⟩
   | idx v => exact ⟨rfl, .same rfl⟩
   | del li =>
     simp only [Node.step, Node.deleteTunnel]
